@@ -16,6 +16,7 @@
 EXTENDS Shapes, TLC, Json
 
 CONSTANTS K, MaxN, Stride, Offset,
+          BigN,     \* sizes of the parametric long path (n unit steps right / up alternately; n + 1 vertices), may be {}
           Mode      \* "integer": segments of integer length, exact arc length; "general": any lattice segments (irrational lengths)
 NG == (K + 1) * (K + 1)
 GridSeq == [i \in 1 .. NG |-> <<(i - 1) \div (K + 1), (i - 1) % (K + 1)>>]
@@ -56,7 +57,10 @@ SamePt(p, q) == RatEq(p[1], q[1]) /\ RatEq(p[2], q[2])
 VARIABLES sel
 vars == <<sel>>
 Pts(s) == [i \in DOMAIN s |-> GridSeq[s[i]]]
-Init == sel \in {<<i>> : i \in {j \in 1 .. NG : j % Stride = Offset % Stride}}
+\* a long path of n unit segments (size-gated code paths): right, up, right, up, ...
+StairLine(n) == [i \in 1 .. n + 1 |-> <<i \div 2, (i - 1) \div 2>>]
+Init == \/ sel \in {<<i>> : i \in {j \in 1 .. NG : j % Stride = Offset % Stride}}
+        \/ sel \in {<<0 - n>> : n \in BigN}
 
 CeilDiv(a, b) == (a + b - 1) \div b
 MaxList == << <<1, 4>>, <<1, 2>>, <<1, 1>>, <<3, 2>>, <<2, 1>>, <<5, 2>>, <<4, 1>>, <<100, 1>> >>
@@ -84,13 +88,17 @@ GeneralCase(cs) ==
      first |-> cs[1], last |-> cs[Len(cs)],
      seg2 |-> [i \in 1 .. Len(cs) - 1 |-> D2(cs[i], cs[i + 1])],
      irrational |-> \E i \in 1 .. Len(cs) - 1 : ~IsSquare(D2(cs[i], cs[i + 1]))]
-Next == /\ Len(sel) < MaxN
+BigEmit == /\ Len(sel) = 1 /\ sel[1] < 0 /\ sel' = <<sel[1], 0>>
+           /\ PrintT(<<"CASE", ToJson(Case(StairLine(0 - sel[1])))>>)
+NextSmall ==
+        /\ sel[1] > 0 /\ Len(sel) < MaxN
         /\ \E j \in 1 .. NG : (Mode = "general" \/ IntLen(GridSeq[sel[Len(sel)]], GridSeq[j])) /\ sel' = Append(sel, j)
         /\ PrintT(<<"CASE", ToJson(IF Mode = "general" THEN GeneralCase(Pts(sel')) ELSE Case(Pts(sel')))>>)
+Next == BigEmit \/ NextSmall
 Spec == Init /\ [][Next]_vars
 
 \* the walk computes the arc-length parametrisation, from-end is the mirror image
-WalkOK == (Len(sel) >= 2 /\ Mode = "integer") =>
+WalkOK == (sel[1] > 0 /\ Len(sel) >= 2 /\ Mode = "integer") =>
     LET cs == Pts(sel) L == TotalLen(cs, 1) IN
     \A k \in DOMAIN Ratios :
       LET c == Clamp01(Ratios[k]) d == <<c[1] * L, c[2]>> IN
